@@ -59,17 +59,30 @@ func TestVerifC15(t *testing.T) {
 	}
 	mc.Run(t, mc.Config{ID: "C15", Name: "C15-pin-unpin", MaxDev: -1, Params: map[string]interface{}{
 		"depth": depth, "alphabet": opNames, "files": letters, "chunk_size": boson.ChunkSize,
-		"setup": "A, B, D uploaded through POST /aurora (no pin) on a fresh node, capacity 1000 (no collection)",
+		"setup": "first choice: A, B, D uploaded through POST /aurora | A uploaded, B and D cached (requested files); capacity 1000 (no collection)",
+		"quick_restriction": "upload+pin is offered only while its reference is not pinned (the repeated case is a recorded finding); thorough offers it always",
 		"observations": "pin index dump, GET /pins, GET /pins/{ref} for every reference after every step",
 	}}, func(x *mc.X) {
 		n, err := nodelite.New(nodelite.Options{Capacity: 1000, Universe: u})
 		x.NoErr(err, "node")
 		defer n.Close()
+		// initial state: how the three references came to be stored — all uploaded (POST /aurora), or A
+		// uploaded and B, D cached (retrieved as requested files: their roots have access-index and
+		// gc-index entries, which setPin/setUnpin treat differently)
+		cachedSetup := x.Choose(2) == 1
 		for _, f := range names {
+			if cachedSetup && f != "A" {
+				x.NoErr(n.Cache(u.ByName[f]), "setup cache of "+f)
+				continue
+			}
 			c, ref := n.UploadAurora(f, u.ByName[f].Data, false)
 			if c != 201 || !ref.Equal(u.ByName[f].Root) {
 				x.Broken("setup upload of %s: status %d", f, c)
 			}
+		}
+		if cachedSetup {
+			x.Logf("setup: upload(A), cache(B), cache(D)")
+			x.Tag("setup-with-cached-references")
 		}
 		pinned := map[string]bool{}             // reference model: last operation on the reference was a pin
 		delta := map[string]map[string]uint64{} // what the effective pin of the reference added, per chunk
@@ -104,7 +117,19 @@ func TestVerifC15(t *testing.T) {
 		samePins := func(a, b map[string]uint64) bool { return c15PinStr(a) == c15PinStr(b) }
 
 		for step := 0; step < depth; step++ {
-			o := ops[x.Choose(len(ops))]
+			// quick: the pin-by-upload operation is offered only for a reference that is not pinned (the
+			// repeated case is a recorded finding and would end every history that contains it)
+			avail := ops
+			if !thorough {
+				avail = nil
+				for _, o := range ops {
+					if o.kind == "uppin" && pinned[o.file] {
+						continue
+					}
+					avail = append(avail, o)
+				}
+			}
+			o := avail[x.Choose(len(avail))]
 			f := u.ByName[o.file]
 			before, lbefore := observe()
 			var code int
@@ -202,6 +227,15 @@ func TestVerifC15(t *testing.T) {
 				x.Nontrivial()
 				x.Check(samePins(before, after), "repeated-unpin-changed-pin-counts", "%s on an unpinned reference changed pin counts: {%s} -> {%s}", o.name, c15PinStr(before), c15PinStr(after))
 				x.Check(lbefore == lafter, "repeated-unpin-changed-listing", "%s on an unpinned reference changed the listing: %s -> %s", o.name, lbefore, lafter)
+			}
+			for _, pf := range names {
+				if !pinned[pf] {
+					continue
+				}
+				for _, a := range u.ByName[pf].Closure {
+					c := u.Name(a)
+					x.Check(after[c] >= 1, "pinned-reference-has-unpinned-chunk", "after %s: %s is still pinned but its chunk %s has pin count %d; pins {%s}", o.name, pf, c, after[c], c15PinStr(after))
+				}
 			}
 			x.Check(lafter == wantListed(), "listed-iff-last-operation-was-pin", "after %s: %s, want %s", o.name, lafter, wantListed())
 			var ms []string
